@@ -58,8 +58,15 @@ U(L) ==
               \cup {t \in J45(L) : Asc(t)}
               \cup {Jn(<<Pt(a), Pt(a + 1), Pt(a + 2), Pt(a + 3), Pt(a + 4)>>) : a \in 0..(L - 5)}
               \cup {Od(<<Pt(a), Rg(a + 1, a + 3, FALSE, FALSE), Pt(a + 3)>>) : a \in 0..(L - 4)}
+      \* mixed-strand joins whose complement part is itself a join (nested regions)
+      nested == {Jn(<<Cp(Jn(<<a, b>>)), c>>) : a \in Points(L), b \in Solid(L), c \in Solid(L)}
+                \cup {Jn(<<c, Cp(Jn(<<a, b>>))>>) : a \in Points(L), b \in Solid(L), c \in Points(L)}
+      nestedOK == {t \in nested : LET j == IF t.xs[1].k = "cp" THEN t.xs[1].x ELSE t.xs[2].x
+                                     c == IF t.xs[1].k = "cp" THEN t.xs[2] ELSE t.xs[1]
+                                 IN Hi(j.xs[1]) < Lo(j.xs[2]) /\ (Hi(j.xs[2]) < Lo(c) \/ Hi(c) < Lo(j.xs[1]))}
   IN base \cup {Cp(t) : t \in base}
      \cup {t \in JC2(L) : Hi(t.xs[2].x) <= Lo(t.xs[1].x)}
+     \cup nestedOK \cup {Cp(t) : t \in nestedOK}
 
 \* constant-level (evaluated once by TLC): the ordered universe per length
 TermSeqs == [L \in Ls |-> SetToSeq(U(L))]
@@ -212,7 +219,8 @@ PureRecs(g) ==
   LET st == Stores[(g % Len(Stores)) + 1]
       kd == Kinds[(g \div Len(Stores)) + 1]
   IN << [name |-> "r0", res |-> [j \in 1..6 |-> 96 + j], topo |-> "circular", kind |-> kd,
-         store |-> st, buf |-> "B", off |-> 0, feats |-> PureFeats],
+         store |-> st, buf |-> "B", off |-> 0, feats |-> PureFeats,
+         refs |-> <<"(bases 1 to 6)", "(bases 2 to 4; 5 to 6)", "(sites)">>],
         [name |-> "g0", res |-> [j \in 1..2 |-> 64 + j], topo |-> "na", kind |-> "basic",
          store |-> st, buf |-> "B", off |-> 6, feats |-> <<FeatRec(Rg(0, 2, FALSE, FALSE), "g1", "gene")>>] >>
 
@@ -254,7 +262,8 @@ RawOf(r) ==
                 [key |-> r.feats[j].key, label |-> r.feats[j].label,
                  loc |-> IF r.feats[j].built THEN Built(r.feats[j].loc) ELSE r.feats[j].loc,
                  props |-> << <<"label", r.feats[j].label>> >>]],
-   refs |-> << >>, region |-> << >>]
+   refs |-> IF "refs" \in DOMAIN r /\ r.kind = "gb" THEN [j \in 1..Len(r.refs) |-> [num |-> j, info |-> r.refs[j]]] ELSE << >>,
+   region |-> << >>]
 
 RECURSIVE InitAll(_, _)
 InitAll(ws, rs) ==
